@@ -7,6 +7,7 @@ import (
 	"context"
 	"fmt"
 	"io"
+	stdlog "log"
 	"net/http"
 	"net/http/httptest"
 	"strconv"
@@ -174,7 +175,7 @@ func (rn *runner) httpTransport(w *World, inputs [][]byte) {
 	}
 	answers, err := rn.drv.AskAll(lines)
 	if err != nil {
-		res.Note("http: %v", err)
+		res.Fatalf("http: %v", err)
 		res.Mismatch(lib.Mismatch{Sig: "harness-run-aborted", Model: err.Error()})
 		return
 	}
@@ -236,11 +237,11 @@ func (rn *runner) httpTransport(w *World, inputs [][]byte) {
 			res.Mismatch(lib.Mismatch{Sig: "http: " + why, Input: map[string]string{"method": s.method, "path": s.path, "body": describe(s.body)},
 				Model: answers[i], Impl: map[string]any{"status": status, "content-type": ctype, "body": string(o.Out), "calls": callsText(o.Calls)}})
 		}
-		if len(f) < 3 {
+		if len(f) < 4 {
 			bad("driver answer unreadable")
 			continue
 		}
-		mt, rest, perr := fromTokens(f[2:])
+		mt, rest, perr := fromTokens(f[3:])
 		if perr != nil || len(rest) != 0 || mt.K != '[' || len(mt.A) != 2 {
 			bad("driver answer unreadable")
 			continue
@@ -265,9 +266,10 @@ func (rn *runner) httpTransport(w *World, inputs [][]byte) {
 // ---- WebSocket ------------------------------------------------------------------------------
 
 type wsClient struct {
-	url  string
-	conn *websocket.Conn
-	n    int
+	url     string
+	conn    *websocket.Conn
+	n       int
+	timeout time.Duration // per exchange; 0 = 30 s
 }
 
 func (c *wsClient) dial() error {
@@ -288,7 +290,11 @@ func (c *wsClient) exchange(msgs [][]byte) (got [][]byte, hung bool, err error) 
 	c.n++
 	sentinelID := fmt.Sprintf("__sentinel__%d", c.n)
 	sentinel := fmt.Sprintf(`{"jsonrpc":"2.0","method":"noargs","id":%q}`, sentinelID)
-	ctx, cancel := context.WithTimeout(context.Background(), 30*time.Second)
+	to := c.timeout
+	if to == 0 {
+		to = 30 * time.Second
+	}
+	ctx, cancel := context.WithTimeout(context.Background(), to)
 	defer cancel()
 	for _, m := range msgs {
 		mt := websocket.MessageText
@@ -333,14 +339,14 @@ func (rn *runner) wsTransport(w *World, inputs [][]byte, sessions [][][]byte) {
 	defer close(shutdown)
 	c := &wsClient{url: ws.URL}
 	if err := c.dial(); err != nil {
-		res.Note("websocket dial failed: %v", err)
+		res.Fatalf("websocket dial failed: %v", err)
 		res.Mismatch(lib.Mismatch{Sig: "websocket-dial-failed", Model: err.Error()})
 		return
 	}
 	redial := func() bool {
 		c.conn.CloseNow()
 		if err := c.dial(); err != nil {
-			res.Note("websocket re-dial failed: %v", err)
+			res.Fatalf("websocket re-dial failed: %v", err)
 			return false
 		}
 		return true
@@ -395,7 +401,7 @@ func (rn *runner) wsTransport(w *World, inputs [][]byte, sessions [][][]byte) {
 	}
 	answers, err := rn.drv.AskAll(lines)
 	if err != nil {
-		res.Note("ws: %v", err)
+		res.Fatalf("ws: %v", err)
 		res.Mismatch(lib.Mismatch{Sig: "harness-run-aborted", Model: err.Error()})
 		return
 	}
@@ -455,7 +461,7 @@ func (rn *runner) wsTransport(w *World, inputs [][]byte, sessions [][][]byte) {
 		res.Compared(1)
 		mt, rest, perr := fromTokens(strings.Fields(answers[si]))
 		why := ""
-		if perr != nil || len(rest) != 0 || mt.K != '[' || len(mt.A) != 2 {
+		if perr != nil || len(rest) != 0 || mt.K != '[' || len(mt.A) != 3 {
 			why = "driver answer unreadable"
 		} else if len(mt.A[0].A) != len(got) {
 			why = "number of messages on the wire differs"
@@ -544,7 +550,7 @@ func bigInputs(thorough bool) [][]byte {
 
 func (rn *runner) transports(w *World, inputs [][]byte) {
 	if err := rn.setWorld(w); err != nil {
-		rn.res.Note("transports: %v", err)
+		rn.res.Fatalf("transports: %v", err)
 		rn.res.Mismatch(lib.Mismatch{Sig: "harness-run-aborted", Model: err.Error()})
 		return
 	}
@@ -616,4 +622,148 @@ func (rn *runner) bigPayload(w *World, in []byte) {
 		res.Violate(lib.Violation{Sig: "websocket-large-frame-answered-differently", What: fmt.Sprintf("[ws] %d-byte frame: %d messages, first %s; HandleReader: %s", len(in), len(msgs), short(bytes.Join(msgs, nil)), short(direct.Out)),
 			Replay: map[string]any{"via": "ws", "bytes": len(in)}})
 	}
+}
+
+// faultyInputs: the shapes that matter for failing handlers, deterministically
+func faultyInputs() [][]byte {
+	var out [][]byte
+	for _, s := range []string{
+		`{"jsonrpc":"2.0","method":"nan","id":1}`, `{"jsonrpc":"2.0","method":"nan"}`, `{"jsonrpc":"2.0","method":"nan","id":null}`,
+		`{"jsonrpc":"2.0","method":"nanhdr","id":"h"}`, `{"jsonrpc":"2.0","method":"boom","id":2}`, `{"jsonrpc":"2.0","method":"boom"}`,
+		`{"jsonrpc":"2.0","method":"boomctx","params":[],"id":3}`, `[{"jsonrpc":"2.0","method":"nan","id":1}]`,
+		`[{"jsonrpc":"2.0","method":"nan","id":1},{"jsonrpc":"2.0","method":"noargs","id":2}]`,
+		`[{"jsonrpc":"2.0","method":"boom","id":1},{"jsonrpc":"2.0","method":"noargs","id":2},{"jsonrpc":"2.0","method":"nan","id":3},7]`,
+		`[{"jsonrpc":"2.0","method":"boom"},{"jsonrpc":"2.0","method":"nan"}]`, `[{"jsonrpc":"2.0","method":"boom","id":1},{"jsonrpc":"2.0","method":"boomctx","id":2}]`,
+		`[{"jsonrpc":"2.0","method":"nan","params":["x"],"id":1},{"jsonrpc":"2.0","method":"boom","params":[1,2],"id":2}]`,
+	} {
+		out = append(out, []byte(s))
+	}
+	return out
+}
+
+// faultyTransports: what HTTP and WebSocket do when HandleReader fails or a handler panics
+func (rn *runner) faultyTransports() {
+	res := rn.res
+	w, err := NewWorld(faultyWorld(2))
+	if err != nil {
+		res.Fatalf("faulty world: %v", err)
+		return
+	}
+	if err := rn.setWorld(w); err != nil {
+		res.Fatalf("faulty world: %v", err)
+		return
+	}
+	quiet := func(h http.Handler) *httptest.Server { // net/http logs recovered handler panics to stderr
+		s := httptest.NewUnstartedServer(h)
+		s.Config.ErrorLog = stdlog.New(io.Discard, "", 0)
+		s.Start()
+		return s
+	}
+	hs := quiet(jsonrpc.NewHTTP(w.Server, log.NewNopZapLogger()))
+	defer hs.Close()
+	for _, in := range faultyInputs() {
+		ans, err := rn.drv.Ask("http post 1 " + inArgs(in, httpBodyLimit))
+		if err != nil {
+			res.Fatalf("faulty transports: driver: %v", err)
+			return
+		}
+		f := strings.Fields(ans)
+		if len(f) < 4 {
+			res.Fatalf("faulty transports: driver answer %q", ans)
+			return
+		}
+		w.reset()
+		resp, herr := (&http.Client{Timeout: 20 * time.Second}).Post(hs.URL, "application/json", bytes.NewReader(in))
+		status, body := 0, []byte(nil)
+		if herr == nil {
+			body, _ = io.ReadAll(resp.Body)
+			resp.Body.Close()
+			status = resp.StatusCode
+		}
+		calls, _ := w.taken()
+		res.Case("faulty-http:"+string(in), true)
+		res.Hit("transport:http-faulty")
+		res.Compared(1)
+		mt, _, perr := fromTokens(f[3:])
+		switch {
+		case perr != nil || mt.K != '[' || len(mt.A) != 2:
+			res.Fatalf("faulty transports: driver answer %q", ans)
+		case (f[2] == "1") != (herr != nil):
+			res.Mismatch(lib.Mismatch{Sig: "http: connection dropped differs", Input: describe(in), Model: ans, Impl: fmt.Sprint(herr)})
+		case herr == nil && f[0] != strconv.Itoa(status):
+			res.Mismatch(lib.Mismatch{Sig: "http: status differs", Input: describe(in), Model: ans, Impl: fmt.Sprintf("%d %s", status, body)})
+		case herr == nil && !sameBody(bodyOf(mt), body, isBatchShaped(in)):
+			res.Mismatch(lib.Mismatch{Sig: "http: body differs", Input: describe(in), Model: ans, Impl: string(body)})
+		case !sameLog(mt.A[1], calls):
+			res.Mismatch(lib.Mismatch{Sig: "http: handler invocations differ", Input: describe(in), Model: ans, Impl: callsText(calls)})
+		}
+		// the property: the request must be answered
+		if e, cerr := soleEntry(w, in); cerr == nil && e.kind == ekCall {
+			switch {
+			case herr != nil && e.callsBeh(w, "panic"):
+				res.Violate(lib.Violation{Sig: "handler-panic-escapes-to-transport", What: "[http] " + describe(in) + ": the connection is dropped without a response: " + herr.Error(), Replay: mkReplay(w, in, "http")})
+			case herr != nil:
+				res.Violate(lib.Violation{Sig: "connection-dropped-instead-of-answer", What: "[http] " + describe(in) + ": " + herr.Error(), Replay: mkReplay(w, in, "http")})
+			case status == 500 && len(body) == 0 && e.callsBeh(w, "unmarshalable"):
+				res.Violate(lib.Violation{Sig: "unmarshallable-result-go-error-no-response", What: "[http] " + describe(in) + ": status 500 with an empty body", Replay: mkReplay(w, in, "http")})
+			case status != 200 || len(body) == 0:
+				res.Violate(lib.Violation{Sig: "http-status-not-200", What: fmt.Sprintf("[http] status %d, body %q for %s", status, body, describe(in)), Replay: mkReplay(w, in, "http")})
+			}
+		}
+	}
+	// WebSocket: after a failing message the connection is closed; the following message is never handled
+	shutdown := make(chan struct{})
+	ws := quiet(jsonrpc.NewWebsocket(w.Server, shutdown, log.NewNopZapLogger()))
+	defer ws.Close()
+	defer close(shutdown)
+	for _, first := range []string{`{"jsonrpc":"2.0","method":"nan","id":1}`, `{"jsonrpc":"2.0","method":"boom","id":1}`, `{"jsonrpc":"2.0","method":"noargs","id":1}`} {
+		session := [][]byte{[]byte(first), []byte(`{"jsonrpc":"2.0","method":"echo","params":[5],"id":2}`)}
+		ans, err := rn.drv.Ask(fmt.Sprintf("ws 2 %s %s", inArgs(session[0], 1<<20), inArgs(session[1], 1<<20)))
+		if err != nil {
+			res.Fatalf("faulty transports: driver: %v", err)
+			return
+		}
+		mt, _, perr := fromTokens(strings.Fields(ans))
+		if perr != nil || mt.K != '[' || len(mt.A) != 3 {
+			res.Fatalf("faulty transports: driver answer %q", ans)
+			return
+		}
+		c := &wsClient{url: ws.URL, timeout: 3 * time.Second}
+		if err := c.dial(); err != nil {
+			res.Fatalf("faulty transports: websocket dial: %v", err)
+			return
+		}
+		w.reset()
+		got, hung, xerr := c.exchange(session)
+		c.conn.CloseNow()
+		calls, _ := w.taken()
+		calls = dropSentinelCall(calls)
+		res.Case("faulty-ws:"+first, true)
+		res.Hit("transport:ws-faulty")
+		res.Compared(1)
+		// a handler panic inside the (hijacked) WebSocket connection is recovered by net/http, which then
+		// leaves the connection open and unserved: for the client that is a dead connection, not a close
+		closed := xerr != nil
+		if (mt.A[2].K == 't') != closed || len(mt.A[0].A) != len(got) || !sameLog(mt.A[1], calls) {
+			res.Mismatch(lib.Mismatch{Sig: "ws-session with a failing handler: model and implementation differ", Input: sessionText(session), Model: modelText(ans),
+				Impl: map[string]any{"wire": sessionText(got), "calls": callsText(calls), "closed": closed, "err": fmt.Sprint(xerr)}})
+		}
+		if hung && !strings.Contains(first, "boom") {
+			res.Violate(lib.Violation{Sig: "server-hangs", What: "[ws] no answer after " + first, Replay: map[string]any{"via": "ws", "messages": sessionText(session)}})
+		} else if closed {
+			sig := "unmarshallable-result-go-error-no-response"
+			if strings.Contains(first, "boom") {
+				sig = "handler-panic-escapes-to-transport"
+			}
+			res.Violate(lib.Violation{Sig: sig, What: "[ws] after " + first + " the server closes the connection without a response; the next request is never handled: " + xerr.Error(),
+				Replay: map[string]any{"via": "ws", "messages": sessionText(session)}})
+		}
+	}
+}
+
+func bodyOf(mt *J) *J {
+	if len(mt.A[0].A) == 1 {
+		return mt.A[0].A[0]
+	}
+	return nil
 }
